@@ -29,6 +29,7 @@ package repository
 // callbacks, the exact error values, behaviour for a handle list with duplicates.
 
 import (
+	"bytes"
 	"context"
 	"crypto/sha256"
 	"fmt"
@@ -593,8 +594,9 @@ func c43Repository(t *testing.T, rec *kit.Rec) {
 			t.Fatal(err)
 		}
 		var first [][]byte
+		cur := repo
 		sess := func(bufs [][]byte, dup bool) {
-			err := repo.WithBlobUploader(context.Background(), func(ctx context.Context, up restic.BlobSaverWithAsync) error {
+			err := cur.WithBlobUploader(context.Background(), func(ctx context.Context, up restic.BlobSaverWithAsync) error {
 				for _, b := range bufs {
 					if _, _, _, err := up.SaveBlob(ctx, restic.DataBlob, b, restic.ID{}, dup); err != nil {
 						return err
@@ -607,7 +609,14 @@ func c43Repository(t *testing.T, rec *kit.Rec) {
 			}
 		}
 		for i := 0; i < 40; i++ {
-			first = append(first, rng.Bytes(rng.Range(1, 60000)))
+			b := rng.Bytes(rng.Range(1, 60000))
+			if i%4 == 0 {
+				// compressible content: its compressed first copy and its uncompressed second copy
+				// (stored below by a Repository object with compression off) have DIFFERENT stored
+				// lengths (seeded change C43-1)
+				b = bytes.Repeat(rng.Bytes(rng.Range(8, 64)), rng.Range(50, 900))
+			}
+			first = append(first, b)
 		}
 		sess(first, false)
 		// second copies of every other blob in another pack
@@ -615,8 +624,23 @@ func c43Repository(t *testing.T, rec *kit.Rec) {
 		for i := 0; i < len(first); i += 2 {
 			second = append(second, first[i])
 		}
+		open := func(comp CompressionMode) *Repository {
+			r2, err := New(be, Options{Compression: comp, PackSize: MinPackSize})
+			if err != nil {
+				t.Fatal(err)
+			}
+			if err := r2.SearchKey(context.Background(), "c43", 2, ""); err != nil {
+				t.Fatalf("fixture: SearchKey: %v", err)
+			}
+			if err := r2.LoadIndex(context.Background(), restic.NoopTerminalCounterFactory); err != nil {
+				t.Fatalf("fixture: LoadIndex: %v", err)
+			}
+			return r2
+		}
+		cur = open(CompressionOff)
 		sess(second, true)
 		sess([][]byte{rng.Bytes(2_000_000), rng.Bytes(10), rng.Bytes(1_500_000), rng.Bytes(10)}, false)
+		repo = open(CompressionAuto) // the reader sees all packs
 		f := &fixture{be: be, repo: repo, packs: map[restic.ID]pack.Blobs{}, copies: map[restic.BlobHandle]map[restic.ID]bool{}, data: map[restic.ID][]byte{}}
 		st := be.Snapshot()
 		for _, k := range st.Keys(backend.PackFile) {
